@@ -52,7 +52,7 @@ def _dom(ctx):
 
 
 # ------------------------------------------------------------------------------------------------ R17.1
-def step_form(model, dom, sc, nt_value):
+def step_form(model, dom, sc, nt_value, two_steps=False):
     """(y1, extras) of one step of scenario `sc`, with self.sde the real ForwardSDE of a user SDE declared `nt_value`."""
     t0, h, t1, y0 = solverkit.symbols()
     from .c02 import user_sde_obj
@@ -66,7 +66,15 @@ def step_form(model, dom, sc, nt_value):
     except SimRaise:
         ex = ()
     y1, extra1 = it.call_function(sc.step_fi, [so, t0, t1, y0, ex], {})
-    return y1, tuple(extra1) if isinstance(extra1, (tuple, list)) else (extra1,)
+    extra1 = tuple(extra1) if isinstance(extra1, (tuple, list)) else (extra1,)
+    if not two_steps:
+        return y1, extra1
+    # a second step on the same solver and ForwardSDE objects, from the first step's end: anything the wrapper kept from
+    # the first step (a memoised evaluation, a flag) is now in play
+    t2 = t1 + nf.sym("h2", True)
+    y2, extra2 = it.call_function(sc.step_fi, [so, t1, t2, y1, extra1], {})
+    extra2 = tuple(extra2) if isinstance(extra2, (tuple, list)) else (extra2,)
+    return y2, extra2
 
 
 def embed(x, nt, t0, t1):
@@ -130,7 +138,25 @@ def r17_1(ctx):
                       f"{sc.cls.name}: one step of an SDE declared {name} differs from the step of its general-noise "
                       f"embedding under the same Brownian increment; difference in y1: `{diff}`",
                       "special form == embedded general form")
-    ctx.floor("R17.1", 12)
+            # two consecutive steps on the same objects
+            try:
+                gy2, gex2 = step_form(model, dom, gsc, general, two_steps=True)
+                sy2, sex2 = step_form(model, dom, sc, nt, two_steps=True)
+            except SimRaise as e:
+                raise AnalysisError(f"{sc.label}: second step raises {e.exc_name}: {e.message}", where=astq.loc(sc.step_fi))
+            t2 = t1 + nf.sym("h2", True)
+
+            def embed2(x):
+                return embed(embed(x, name, t0, t1), name, t1, t2)
+            ok2 = nf.equal(sy2, embed2(gy2)) and len(sex2) == len(gex2) and \
+                all(nf.equal(a, embed2(b) if isinstance(b, Rat) else b) for a, b in zip(sex2, gex2))
+            n += 1
+            rep.check(ok2, "R17.1", astq.loc(sc.step_fi), construct + "::second-step",
+                      f"{sc.cls.name}: the second of two consecutive steps of an SDE declared {name} differs from that of its "
+                      f"general-noise embedding (same solver and SDE wrapper objects, same Brownian increments): something kept "
+                      f"from the first step -- a memoised evaluation recalled for a merely close time, a flag -- enters the "
+                      f"special declaration only", "two steps: special form == embedded general form")
+    ctx.floor("R17.1", 24)
 
 
 # ------------------------------------------------------------------------------------------------ R17.2 index-level products
@@ -175,10 +201,52 @@ class ST:
         return ST((self.shape[0], o.shape[1]), out)
 
     def getitem(self, idx):
+        from fractions import Fraction as _F
+        if isinstance(idx, _F):
+            idx = int(idx)
         if isinstance(idx, int):
             i = idx if idx >= 0 else self.shape[0] + idx
             return ST(self.shape[1:], {ix[1:]: v for ix, v in self.data.items() if ix[0] == i})
+        if isinstance(idx, slice):
+            idx = (idx,)
+        if isinstance(idx, tuple):
+            # expand a single Ellipsis; remaining axes are full slices
+            items = list(idx)
+            if Ellipsis in items:
+                k = items.index(Ellipsis)
+                items = items[:k] + [slice(None)] * (len(self.shape) - (len(items) - 1)) + items[k + 1:]
+            items += [slice(None)] * (len(self.shape) - len(items))
+            keep, ranges = [], []
+            for ax, it in enumerate(items):
+                if isinstance(it, _F):
+                    it = int(it)
+                if isinstance(it, int):
+                    ranges.append([it if it >= 0 else self.shape[ax] + it])
+                    keep.append(False)
+                elif isinstance(it, slice):
+                    lo, hi, st = (None if v is None else int(v) for v in (it.start, it.stop, it.step))
+                    ranges.append(list(range(self.shape[ax]))[slice(lo, hi, st)])
+                    keep.append(True)
+                else:
+                    raise AnalysisError(f"index-level tensor: subscript {idx!r} is not modelled")
+            shape = tuple(len(r) for r, k in zip(ranges, keep) if k)
+            data = {}
+            import itertools
+            for pos in itertools.product(*[range(len(r)) for r in ranges]):
+                src = tuple(r[p] for r, p in zip(ranges, pos))
+                dst = tuple(p for p, k in zip(pos, keep) if k)
+                data[dst] = self.data[src]
+            return ST(shape, data)
         raise AnalysisError(f"index-level product: subscript {idx!r} is not modelled")
+
+    def __sub__(self, o):
+        return self._bin(o, lambda a, b: a - b)
+
+    def __len__(self):
+        return self.shape[0]
+
+    def rows(self):
+        return [self.getitem(i) for i in range(self.shape[0])]
 
     def sim_binop(self, op, l, r):
         if isinstance(op, ast.MatMult) and isinstance(l, ST):
@@ -187,6 +255,8 @@ class ST:
             return l * r if isinstance(l, ST) else r * l
         if isinstance(op, ast.Add):
             return l + r if isinstance(l, ST) else r + l
+        if isinstance(op, ast.Sub) and isinstance(l, ST):
+            return l - r
         return NotImplemented
 
     def equal(self, o):
@@ -204,6 +274,24 @@ def _st_method(x, name, args, kwargs, where):
         d = int(args[0] if args else kwargs["dim"])
         d = d if d >= 0 else n + 1 + d
         return ST(x.shape[:d] + (1,) + x.shape[d:], {ix[:d] + (0,) + ix[d:]: v for ix, v in x.data.items()})
+    if name == "squeeze" and not args and "dim" not in kwargs:
+        out = x
+        for d in reversed(range(n)):
+            if x.shape[d] == 1:
+                out = _st_method(out, "squeeze", (d,), {}, where)
+        return out
+    if name == "split":
+        sizes = args[0] if args else kwargs["split_size"]
+        d = _dim(args[1] if len(args) > 1 else kwargs.get("dim", 0), n)
+        sizes = [int(z.const_value()) if isinstance(z, Rat) else int(z) for z in sizes]
+        if sum(sizes) != x.shape[d]:
+            raise AnalysisError(f"index-level tensor: split sizes {sizes} do not add up to {x.shape[d]}", where=where)
+        out, lo = [], 0
+        for sz in sizes:
+            idx = tuple([slice(None)] * d + [slice(lo, lo + sz)])
+            out.append(x.getitem(idx))
+            lo += sz
+        return tuple(out)
     if name == "squeeze":
         d = _dim(args[0] if args else kwargs["dim"], n)
         if x.shape[d] != 1:
@@ -258,6 +346,16 @@ class IndexHooks(FwdHooks):
             return _bmm(args[0], args[1], astq.loc(fi, node))
         if dotted == "torch.einsum":
             raise AnalysisError("index-level product: torch.einsum is not modelled", where=astq.loc(fi, node))
+        if dotted == "torch.stack" and args and all(isinstance(p, ST) for p in args[0]):
+            parts = list(args[0])
+            d = int(kwargs.get("dim", args[1] if len(args) > 1 else 0))
+            if d != 0 or any(p.shape != parts[0].shape for p in parts):
+                raise AnalysisError("index-level tensor: torch.stack other than equal shapes on dim 0", where=astq.loc(fi, node))
+            data = {}
+            for k, p in enumerate(parts):
+                for ix, v in p.data.items():
+                    data[(k,) + ix] = v
+            return ST((len(parts),) + parts[0].shape, data)
         return super().external_call(interp, dotted, args, kwargs, node, fi)
 
     def on_call(self, interp, callee, args, kwargs, node, fi):
@@ -282,6 +380,24 @@ class EmbedHooks(FwdHooks):
                 return nf.linear("DGGA", (Rat.lift(t).key(), Rat.lift(y).key()), Rat.lift(aa))
         return super().on_call(interp, callee, args, kwargs, node, fi)
 
+    # a comparison "up to a tolerance" of two times that are not identical can come out true (times closer than the
+    # tolerance -- for isclose's default 1e-5 |t| that is every step once |t| / dt > 1e5): the adversarial outcome is
+    # taken, so a value recalled for a merely *close* time is seen for what it is -- a value at another time
+    def external_call(self, interp, dotted, args, kwargs, node, fi):
+        if dotted in ("torch.isclose", "torch.allclose", "math.isclose") and len(args) >= 2:
+            return True
+        if dotted in ("torch.as_tensor", "torch.tensor") and args:
+            return args[0]
+        return super().external_call(interp, dotted, args, kwargs, node, fi)
+
+    def tensor_method(self, interp, recv, name, args, kwargs, node, fi):
+        if name in ("to", "detach", "clone", "contiguous"):
+            return recv
+        if name == "size" and args:
+            return nf.sym(f"size{int(args[0])}", True)
+        r = super().tensor_method(interp, recv, name, args, kwargs, node, fi)
+        return r
+
 
 def _index_interp(model):
     it = Interp(model, IndexHooks())
@@ -304,6 +420,13 @@ def _index_interp(model):
             return _st_method(callee.x, callee.name, args, kwargs, astq.loc(f2, node) if f2 else "")
         return orig_call(callee, args, kwargs, node, f2)
     it.getattr, it.call = getattr_, call_
+    orig_iterate = it.iterate
+
+    def iterate_(x, node=None, f2=None):
+        if isinstance(x, ST):
+            return x.rows()
+        return orig_iterate(x, node, f2)
+    it.iterate = iterate_
     return it
 
 
